@@ -255,6 +255,57 @@ static void run_stack(const char* subj, Rng& g, long nops, std::size_t block, Ma
             else
                 emit(fmt("%s dealloc_node %zu", subj, size), "done", stack_state(s));
         }
+        else if (k >= 68 && k < 72)
+        { // C08: composable try_deallocate_node/array only answers "is this my memory" (the stack releases nothing)
+            using ctraits = composable_allocator_traits<Stack>;
+            for (int probe = 0; probe < 3; ++probe)
+            {
+                char*       p = nullptr;
+                std::size_t size = 8;
+                int         kind = 0; // 1 = live allocation (must be recognised), 2 = outside every block (must not be)
+                if (!O->live.empty() && g.chance(60))
+                {
+                    // while a second stack exists the ledger entries below `base_live` belong to the older one: a sibling's memory
+                    std::size_t idx = g.below(O->live.size());
+                    auto&       a = O->live[idx];
+                    p = static_cast<char*>(R->ptr(a.off)) + (g.chance(30) && a.size > 1 ? a.size - 1 : 0);
+                    size = a.size;
+                    kind = (other >= 0 && idx < base_live) ? 2 : (a.size > 0 ? 1 : 0); // a zero-sized allocation has no byte to recognise
+                }
+                else
+                {
+                    // around the blocks the arena holds: one before, first usable byte, last byte, one past the end
+                    std::vector<std::pair<char*, std::size_t>> blks;
+                    for (auto n = s.arena_.used_.head_; n; n = n->prev)
+                        blks.push_back({reinterpret_cast<char*>(n), n->usable_size + detail::memory_block_stack::implementation_offset()});
+                    if (blks.empty())
+                        break;
+                    auto b = blks[g.below(blks.size())];
+                    switch (g.below(5))
+                    {
+                    case 0: p = b.first - 1; break;
+                    case 1: p = b.first + detail::memory_block_stack::implementation_offset(); break;
+                    case 2: p = b.first + b.second - 1; break;
+                    case 3: p = b.first + b.second; break;
+                    default: p = static_cast<char*>(R->ptr(8)); break; // start of the region: never handed out as a block
+                    }
+                    bool inside = false;
+                    for (auto& q : blks)
+                        inside = inside || (p >= q.first && p < q.first + q.second);
+                    kind = inside ? 0 : 2;
+                }
+                bool        arr = g.chance(40);
+                std::string before = stack_state(s);
+                bool        r = arr ? ctraits::try_deallocate_array(s, p, 2, size / 2 + 1, 1) : ctraits::try_deallocate_node(s, p, size, 1);
+                if (kind == 1 && !r)
+                    O->fail(fmt("C08 memory_stack: try_deallocate_%s does not recognise the live allocation at %zu", arr ? "array" : "node", R->off(p)));
+                if (kind == 2 && r)
+                    O->fail(fmt("C08 memory_stack: try_deallocate_%s claims foreign memory at %zu", arr ? "array" : "node", R->off(p)));
+                if (stack_state(s) != before)
+                    O->fail("C08 memory_stack: try_deallocate changed the stack");
+                emit(fmt("%s try_dealloc %zu", subj, R->off(p)), r ? "true" : "false", stack_state(s));
+            }
+        }
         else if (k >= 75 && k < 78)
         { // C06 replay oracle: marker; requests; unwind; the same requests again must give the same addresses, served
           // from the block cache (no upstream allocation), unless the first pass saw an upstream failure
@@ -485,7 +536,48 @@ static void run_iter(const char* subj, Rng& g, long nops, std::size_t block, Mak
                 ++n_throw;
             emit(fmt("%s alloc %zu 1", subj, size), res, iter_state(*it));
         }
-        else if (k < 60)
+        else if (k >= 55 && k < 60)
+        { // C08: composable try_deallocate_node/array = "is this inside my block" for memory of every iteration
+            using ctraits = composable_allocator_traits<It>;
+            char* blk = static_cast<char*>(it->block_.memory);
+            for (int probe = 0; probe < 3; ++probe)
+            {
+                char*       p = nullptr;
+                std::size_t size = 8;
+                int         kind = 0;
+                if (!O->live.empty() && g.chance(60))
+                {
+                    auto& a = O->live[g.below(O->live.size())];
+                    p = static_cast<char*>(R->ptr(a.off)) + (g.chance(30) && a.size > 1 ? a.size - 1 : 0);
+                    size = a.size;
+                    kind = a.size > 0 ? 1 : 0; // a zero-sized allocation has no byte to recognise
+                }
+                else
+                {
+                    switch (g.below(5))
+                    {
+                    case 0: p = blk - 1; break;
+                    case 1: p = blk; break;
+                    case 2: p = blk + it->block_.size - 1; break;
+                    case 3: p = blk + it->block_.size; break;
+                    default: p = static_cast<char*>(R->ptr(8)); break;
+                    }
+                    kind = (p >= blk && p < blk + it->block_.size) ? 0 : 2;
+                }
+                bool        arr = g.chance(40);
+                std::string before = iter_state(*it);
+                bool        r = arr ? ctraits::try_deallocate_array(*it, p, 2, size / 2 + 1, 1) : ctraits::try_deallocate_node(*it, p, size, 1);
+                if (kind == 1 && !r)
+                    O->fail(fmt("C08 iteration_allocator: try_deallocate_%s does not recognise the live allocation at %zu (current iteration %zu)",
+                                arr ? "array" : "node", R->off(p), it->cur_iteration()));
+                if (kind == 2 && r)
+                    O->fail(fmt("C08 iteration_allocator: try_deallocate_%s claims foreign memory at %zu", arr ? "array" : "node", R->off(p)));
+                if (iter_state(*it) != before)
+                    O->fail("C08 iteration_allocator: try_deallocate changed the allocator");
+                emit(fmt("%s try_dealloc %zu", subj, R->off(p)), r ? "true" : "false", iter_state(*it));
+            }
+        }
+        else if (k < 55)
         {
             O->verify_all("before next_iteration");
             it->next_iteration();
